@@ -439,26 +439,51 @@ func execIterFn(w *World, st *Step) {
 				calls++
 				return calls <= stop
 			})
-		case 1:
+		case 1, 2:
 			want = o.M.Slice()
-			for x := range roaring.Values(o.BM) {
+			seq := roaring.Values(o.BM)
+			if st.A[0] == 2 {
+				for i, j := 0, len(want)-1; i < j; i, j = i+1, j-1 {
+					want[i], want[j] = want[j], want[i]
+				}
+				seq = roaring.Backward(o.BM)
+			}
+			for x := range seq {
 				got = append(got, x)
 				calls++
 				if calls > stop {
 					break
 				}
 			}
-		case 2:
-			want = o.M.Slice()
-			for i, j := 0, len(want)-1; i < j; i, j = i+1, j-1 {
-				want[i], want[j] = want[j], want[i]
-			}
-			for x := range roaring.Backward(o.BM) {
-				got = append(got, x)
-				calls++
-				if calls > stop {
+			// the sequence value is a description of the walk, not a cursor: walking it again
+			// (after a complete or an abandoned walk, or from inside a walk) starts afresh
+			k := 0
+			for x := range seq {
+				if k >= len(want) || x != want[k] {
+					w.fail("C04", "sequence", name+": second walk over the same sequence value differs", fmt.Sprintf("%s: value #%d of the second walk is %d (first walk stopped after %d of %d)", name, k, x, len(got), len(want)))
+					return
+				}
+				k++
+				if k >= 200 {
 					break
 				}
+			}
+			if k < len(want) && k < 200 {
+				w.fail("C04", "sequence", name+": second walk over the same sequence value differs", fmt.Sprintf("%s: the second walk delivered %d of %d values (first walk stopped after %d)", name, k, len(want), len(got)))
+				return
+			}
+			if n := len(want); n > 0 && n <= 40 {
+				pairs := 0
+				for range seq {
+					for range seq {
+						pairs++
+					}
+				}
+				if pairs != n*n {
+					w.fail("C04", "sequence", name+": nested walks over one sequence value interfere", fmt.Sprintf("%s: %d pairs from a set of %d", name, pairs, n))
+					return
+				}
+				w.probe("sequence-nested-walk")
 			}
 		case 3:
 			want = w.complement(st.S[0], st.A[2], st.A[3])
